@@ -781,6 +781,10 @@ class FnTranslator:
                 if isinstance(left, ast.Attribute) and left.attr == "edges" and isinstance(right, ast.Attribute) and right.attr == "edges":
                     s = f"(Graph.edgesEq {self.e(left.value)} {self.e(right.value)})"
                     parts.append(s if fn == "pyEq" else f"(!{s})")
+                elif fn in ("pyEq", "pyNe") and (re.fullmatch(r'"[^"]*"', l) or re.fullmatch(r'"[^"]*"', r)):
+                    # comparison with an attribute key (keys are Lean `String`s, not Python strings of the model)
+                    s = f"(decide ({l} = {r}))"
+                    parts.append(s if fn == "pyEq" else f"(!{s})")
                 else:
                     parts.append(f"({fn} {l} {r})")
             left = right
